@@ -628,7 +628,10 @@ func genRmw(tier string, emit func(string)) {
 					stride = 7
 				}
 				if tier == "quick" {
-					stride *= 2
+					stride *= 5
+					if limit == 3 {
+						stride *= 3
+					}
 				}
 				var cur []int
 				var rec func()
